@@ -13,6 +13,6 @@ rm -rf "$VENV"
 SP="$("$VENV/bin/python" -c 'import sysconfig; print(sysconfig.get_paths()["purelib"])')"
 printf "import site; site.addsitedir('/venv/lib/python3.12/site-packages')\n" > "$SP/_overlay.pth"
 PIP_NO_INDEX=1 "$VENV/bin/python" -m pip install -q --no-index --find-links /opt/veriftools/wheels \
-    z3-solver crosshair-tool mpmath cvc5 jsonschema >/dev/null
-"$VENV/bin/python" -c "import z3, crosshair, mpmath, cvc5, jax, equinox; print('overlay venv ok: z3', z3.get_version_string())"
+    z3-solver crosshair-tool mpmath cvc5 jsonschema sympy >/dev/null
+"$VENV/bin/python" -c "import z3, crosshair, mpmath, cvc5, jax, equinox, sympy; print('overlay venv ok: z3', z3.get_version_string())"
 touch "$STAMP"
